@@ -211,7 +211,8 @@ __ndim_ht(const unsigned int *cal, size_t nm, unsigned int y, unsigned int m)
 /* return the number of days in (hijri) month M in (hijri) year Y. */
 	const unsigned int i = (y - 1U) * 12U + (m - 1U) - SM(cal);
 
-	if (UNLIKELY(i + 1U >= nm)) {
+	if (UNLIKELY(i >= nm || i + 1U >= nm)) {
+		/* also catches the month just before the table (i == -1) */
 		return 0U;
 	}
 	return MT(cal)[i + 1U] - MT(cal)[i + 0U];
@@ -274,6 +275,10 @@ __wday_ht(
 	unsigned int y, unsigned int m, unsigned int d)
 {
 	const mjd_t j = ht2mjd(cal, nm, (struct ymd_s){y, m, d});
+	if (UNLIKELY(!j)) {
+		/* not in the table */
+		return MIR;
+	}
 	return (echs_wday_t)(((j + 1U) % 7U) + 1U);
 }
 
